@@ -95,13 +95,13 @@ def phases(tier, addrs):
               "axi_wstrb": lst([bv(4, 0)]), "axi_wvalid": "[VL false]", "axi_bready": "[VL false]"}
     rd_off = {"axi_araddr": lst([uv(4, 0)]), "axi_arvalid": "[VL false]", "axi_rready": "[VL false]"}
     ph = {}
-    datas = [z32, f32] if tier == "quick" else [z32, f32, a5]
-    strbs = [1, 12, 15] if tier == "quick" else [0, 1, 4, 12, 15]
+    datas = [f32] if tier == "quick" else [z32, f32, a5]
+    strbs = [5, 10] if tier == "quick" else [0, 1, 4, 12, 15]
     ph["write"] = dict(idle, **rd_off, axi_awaddr=lst([uv(4, a) for a in addrs]),
                        axi_wdata=lst([bv(32, d) for d in datas]), axi_wstrb=lst([bv(4, s) for s in strbs]))
     ph["read"] = dict(idle, **wr_off, axi_araddr=lst([uv(4, a) for a in addrs]))
-    ph["readwrite"] = dict(idle, axi_awaddr=lst([uv(4, addrs[0])]), axi_wdata=lst([bv(32, z32), bv(32, f32)]),
-                           axi_wstrb=lst([bv(4, 5)]), axi_araddr=lst([uv(4, a) for a in addrs[:2]]))
+    ph["readwrite"] = dict(idle, axi_awaddr=lst([uv(4, addrs[0])]), axi_wdata=lst([bv(32, f32)] if tier == "quick" else [bv(32, z32), bv(32, f32)]),
+                           axi_wstrb=lst([bv(4, 5)]), axi_araddr=lst([uv(4, addrs[0])] if tier == "quick" else [uv(4, a) for a in addrs[:2]]))
     return ph
 
 
@@ -127,13 +127,15 @@ def run(ck: common.Check, replay=None):
         defaults = lst([f"{d}%Z" for _, _, _, d in regs])
         mapped = [o for _, _, o, _ in regs]
         unmapped = [a for a in (0, 4, 8, 12) if a not in mapped]
-        addrs = mapped + unmapped[:1]
+        addrs = (mapped[:1] if ck.tier == "quick" and len(mapped) > 1 else mapped) + unmapped[:1]
+        if ck.tier == "quick" and len(mapped) > 1:
+            addrs = mapped[:2] + unmapped[:1]
         for phase, alpha in phases(ck.tier, addrs).items():
             if phase == "readwrite" and ck.tier == "quick" and name != "one_memword":
                 continue
             cases.append(X.Case(f"axi_{name}_{phase}", r["vhdl"], step=f"axi_monitor 3%Z {offsets}", init=f"axi_m0 {defaults}",
                                 monitor=True, imports="From Cohdl Require Import Models.AxiSpec.",
-                                alphabet_overrides=alpha, fuel=3000000,
+                                alphabet_overrides=alpha, fuel=600000,
                                 meta={"layout": name, "phase": phase, "addresses": addrs, "source": dsg["source"]}))
             ck.hist("phases", phase)
     X.run_cases(ck, cases, "AXI4-Lite monitor flags on an input sequence (handshake, response count, strobed write or read data)",
